@@ -74,16 +74,20 @@ class AvroWriter(AbstractWriter):
         self.writer.write(r._packdict())
 
     def flush(self):
-        if not self.writer:
-            self.writer = fastavro.write.Writer(
-                self.fp,
-                fastavro.parse_schema({"type": "record", "name": "empty"}),
-                codec=self.codec,
-            )
-        self.writer.flush()
+        # nothing to flush before the first record: the container header is written together with the first record
+        # (or by close() for an output without records), a header written here would make the first write() fail
+        if self.writer:
+            self.writer.flush()
 
     def close(self) -> None:
         if self.fp:
+            if not self.writer:
+                # no records were written: leave a valid, empty container
+                self.writer = fastavro.write.Writer(
+                    self.fp,
+                    fastavro.parse_schema({"type": "record", "name": "empty"}),
+                    codec=self.codec,
+                )
             # records are buffered by the fastavro writer until it is flushed
             self.flush()
         if self.fp and not is_stdout(self.fp):
